@@ -206,6 +206,23 @@ def judge_shrink(name, seed, kind):
     return None
 
 
+def ref_weight(ni, pi_, ne, pe, bg, pts):
+    """interior/(interior+exterior+background) from the tabulated atomic densities in float64; zero density beyond the table;
+    nan where everything vanishes"""
+    from chmpy.interpolate import density as D
+    dom = np.asarray(D._DOMAIN, dtype=np.float64)
+
+    def rho(nn, pp):
+        out = np.zeros(len(pts))
+        for z, q in zip(nn, pp):
+            d2 = np.sum((pts - np.asarray(q, dtype=np.float64)) ** 2, axis=1) / (0.5291772108 ** 2)
+            out += np.interp(d2, dom, np.asarray(D._RHO[int(z) - 1], dtype=np.float64), right=0.0)
+        return out
+    ra, rb = rho(ni, pi_), rho(ne, pe)
+    with np.errstate(invalid="ignore", divide="ignore"):
+        return ra / (ra + rb + bg)
+
+
 def judge_radial(name, seed, kind):
     """the radii the descriptor is built from solve the isovalue equation; no surface inside the bounds => ValueError"""
     from chmpy import PromoleculeDensity, StockholderWeight
@@ -226,7 +243,10 @@ def judge_radial(name, seed, kind):
         v = pro.rho((o + r[:, None] * g).astype(np.float32))
         if np.abs(v - 0.0002).max() > 2e-6:
             return f"{tag}: radial function does not solve rho = 0.0002 (max residual {np.abs(v - 0.0002).max():.3g})"
-        for bounds in ((0.4, 0.8), (float(r.max()) + 1.0, 20.0)):
+        partial = []
+        if r.max() - r.min() > 0.3:
+            partial = [(0.4, float(0.5 * (r.min() + r.max()))), (float(0.5 * (r.min() + r.max())), 20.0)]   # found in SOME directions only
+        for bounds in [(0.4, 0.8), (float(r.max()) + 1.0, 20.0)] + partial:
             try:
                 promolecule_density_descriptor(sht, n, p, bounds=bounds)
                 return f"{tag}: bounds {bounds} do not contain the surface (radii {r.min():.2f}..{r.max():.2f}) but a descriptor was returned"
@@ -234,23 +254,30 @@ def judge_radial(name, seed, kind):
                 pass
     else:
         k = max(1, len(n) // 2)
-        # sparse exterior: in some directions there is no 0.5 surface at all
-        for bg in (0.0, 1e-5):
-            s = StockholderWeight.from_arrays(n[:k], p[:k], n[k:], p[k:], background=bg)
-            try:
-                with open(os.devnull, "w") as devnull:
-                    d = stockholder_weight_descriptor(sht, n[:k], p[:k], n[k:], p[k:], background=bg, coefficients=True)
-            except ValueError:
-                continue
-            # a descriptor was returned: the surface it describes must be the isosurface
-            o2 = np.mean(p[:k], axis=0, dtype=np.float32)
-            r = sphere_stockholder_radii(s.s, o2, g, 0.1, 20.0, 1e-7, 30, 0.5)
-            with np.errstate(invalid="ignore", divide="ignore"):
-                w = s.weights((o2 + r[:, None] * g).astype(np.float32))
-            if not np.all(np.abs(w - 0.5) < 2e-3):
-                bad = int(np.argmax(~(np.abs(w - 0.5) < 2e-3)))
-                return (f"{tag} background={bg}: a descriptor was returned although along direction {bad} the 'surface' point at r={r[bad]:.3f} "
-                        f"has weight {w[bad]!r}, not 0.5 (no isosurface inside the bounds)")
+        # sparse exteriors: in some directions there is no 0.5 surface at all; an independent float64 evaluation of
+        # interior/(interior+exterior+background) (tabulated densities, zero beyond the table) decides what a surface point is
+        variants = [(n[:k], p[:k], n[k:], p[k:])]
+        far = p.mean(axis=0) + np.array([1.0, 0.3, -0.2]) / np.linalg.norm([1.0, 0.3, -0.2]) * (np.linalg.norm(p - p.mean(axis=0), axis=1).max() + 2.4)
+        for z in (2, 11, 17, 8):
+            variants.append((n, p, np.array([z]), far[None, :]))
+        variants.append((n, p, n.copy(), p + np.array([3.4, 0.2, 0.1]) + (p.max(axis=0) - p.min(axis=0)) * np.array([1.0, 0, 0])))
+        for (ni, pi_, ne, pe) in variants:
+            for bg in (0.0, 1e-5):
+                o2 = np.mean(pi_, axis=0, dtype=np.float32)
+                try:
+                    stockholder_weight_descriptor(sht, ni, pi_, ne, pe, background=bg)
+                except ValueError:
+                    continue
+                # a descriptor was returned: every radius it was built from must lie on the isosurface
+                s_ = StockholderWeight.from_arrays(ni, pi_, ne, pe, background=bg)
+                r = sphere_stockholder_radii(s_.s, o2, g, 0.1, 20.0, 1e-7, 30, 0.5)
+                pts = (o2 + r[:, None] * g).astype(np.float64)
+                w = ref_weight(ni, pi_, ne, pe, bg, pts)
+                ok = np.abs(w - 0.5) < 5e-3
+                if not np.all(ok):
+                    bad = int(np.argmax(~ok))
+                    return (f"{tag} interior {list(map(int, ni))} exterior {list(map(int, ne))} background={bg}: a descriptor was returned although along grid "
+                            f"direction {bad} the point at r={r[bad]:.3f} has weight {w[bad]!r}, not 0.5 (no isosurface inside the bounds)")
     return None
 
 
